@@ -77,7 +77,13 @@ _sc = _strip(_body(_s, "sock_close", _S))
 _i_wait = _sc.find("nni_cv_wait(&s->s_close_cv);")
 if _i_wait < 0 or "sock_destroy(s);" not in _sc:
     missing.append("sock_close: wait for references / sock_destroy in " + _S)
-_fx_lateop = "s->s_sock_ops.sock_close(s->s_data);" in _sc[_i_wait:_sc.find("sock_destroy(s);")] if _i_wait >= 0 else False
+_tail = _sc[_i_wait:_sc.find("sock_destroy(s);")] if _i_wait >= 0 else ""
+_mq = _strip(src("src/core/msgqueue.c"))
+_mq_latched = all(re.search(r"if\s*\(mq->mq_closed\)", _body(_mq, _f, "src/core/msgqueue.c")) for _f in ("nni_msgq_aio_get", "nni_msgq_aio_put"))
+# stragglers of the protocol (second sock_close) AND of the upper queues (second nni_msgq_close, or a closed latch in
+# nni_msgq_aio_get/put) are completed
+_fx_lateop = ("s->s_sock_ops.sock_close(s->s_data);" in _tail) and \
+             (("nni_msgq_close(s->s_urq);" in _tail and "nni_msgq_close(s->s_uwq);" in _tail) or _mq_latched)
 
 # fx_ctxopen: nni_ctx_open closes (not merely releases) the context it created on a socket that is shutting down
 _co = _strip(_body(_s, "nni_ctx_open", _S))
@@ -89,7 +95,7 @@ _fx_ctxopen = bool(_m and "nni_ctx_close(ctx);" in _m.group(1))
 for _n, _v, _c in (("C10_FX_EPHOLD", _fx_ephold, "socket.c sock_shutdown waits for an endpoint another thread is closing (pinned: closes it without a hold)"),
                    ("C10_FX_EPID", _fx_epid, "dialer.c/listener.c *_init allocate the id before linking the endpoint into the socket"),
                    ("C10_FX_CTXFINI", _fx_ctxfini, "socket.c nni_ctx_rele runs ctx_fini before releasing sock_lk"),
-                   ("C10_FX_LATEOP", _fx_lateop, "socket.c sock_close runs the protocol's sock_close again before sock_destroy"),
+                   ("C10_FX_LATEOP", _fx_lateop, "socket.c sock_close completes stragglers before sock_destroy: the protocol's sock_close and the upper queues' close run again"),
                    ("C10_FX_CTXOPEN", _fx_ctxopen, "socket.c nni_ctx_open closes the context when the socket is shutting down (pinned: only releases it)")):
     extra_text.append("Definition %s : bool := %s.  (* %s *)" % (_n, "true" if _v else "false", _c))
 
@@ -114,7 +120,7 @@ for _name, _f, _pre in _PROTOS:
     _finic = bool(re.search(r"_ctx_fini\(&\w+->(master|ctx)\)", _fini))     # sock_fini finalizes the master context
     _closec = bool(re.search(r"nni_aio_finish_error\(|_ctx_close\(&\w+->(master|ctx)\)", _close))   # sock_close completes waiters itself
     if re.search(r"nni_msgq_aio_(get|put)\(", _ops):
-        _ph, _latch = 0, True          # the upper queues carry their own closed latch (nni_msgq_close)
+        _ph, _latch = 0, _mq_latched   # the upper queues: do nni_msgq_aio_get/put refuse a closed queue?
     elif _closec or not _finic:
         _ph = 1
         _latch = bool(re.search(r"\bclosed\b", _ops))
